@@ -150,6 +150,28 @@ bj::object observe_t(const Input& in, const std::vector<int>& primes) {
     for (std::size_t k = 0; k < ord.size(); ++k) if (K.simplex(k) != ord[k]) ok = false;
     o["simplex_of_key"] = ok;
   }
+  // Values may be changed after construction (get_cell_data is a reference, impose_lower_star_filtration propagates the
+  // top cells, initialize_filtration recomputes the order): lowering one top cell below all others and refreshing must
+  // give the complex, values and order of a complex built from the modified input.  K has a live sorted cache here.
+  if (in.top && has_top && !tops.empty()) {
+    bool finite = true;
+    for (double x : in.cells) if (!std::isfinite(x)) finite = false;
+    if (finite && tops.size() == in.cells.size()) {
+      std::size_t t = 0;
+      double mn = in.cells[0];
+      for (std::size_t i = 0; i < in.cells.size(); ++i) { if (in.cells[i] > in.cells[t]) t = i; mn = std::min(mn, in.cells[i]); }
+      Input in2 = in;
+      in2.cells[t] = mn - 1;
+      K.get_cell_data(static_cast<std::size_t>(tops[t].as_int64())) = mn - 1;
+      K.impose_lower_star_filtration();
+      K.initialize_filtration();
+      auto fresh = build<C>(in2);
+      bool ok = true;
+      for (std::size_t c = 0; c < N; ++c) if (K.filtration(c) != fresh->filtration(c)) ok = false;
+      if (std::vector<std::size_t>(K.filtration_simplex_range()) != std::vector<std::size_t>(fresh->filtration_simplex_range())) ok = false;
+      o["refresh_ok"] = ok;
+    }
+  }
   bj::array pers, pers_nomax;
   for (int p : primes) {
     pers.push_back(persistence<C>(in, p, true));
